@@ -71,6 +71,21 @@ def gateItems (c : Cfg) (args : List PV) (kw : List (Name × PV)) : List Item :=
     ++ (c.sig.posNames.zip args).map (fun kv => .pos kv.1 kv.2)
     ++ ((c.ps.filter (fun p => !supplied c.sig args kw p.name)).map .absent)
 
+/-- the first parameter of the signature `def f(<pos…>, [*<var>,] [<kwOnly…>])` -/
+def firstParameter (sig : Sig) : Option Name :=
+  match sig.pos, sig.varArgs, sig.kwOnly with
+  | s :: _, _, _ => some s.name
+  | [], true, _ => some sig.varName
+  | [], false, s :: _ => some s.name
+  | [], false, [] => Option.none
+
+/-- the *receiver* of a method: what is bound to the first parameter of the signature when that parameter is called `self`.
+    Python binds it when the method is called on an object; it is the one positional value that needs no declared Parameter
+    under `strict`.  A function whose first parameter is not called `self` has no receiver — whatever else is called `self`
+    (another parameter, a keyword of the call) is an argument like every other. -/
+def specReceiver (sig : Sig) : Option Name :=
+  if firstParameter sig = some selfName then some selfName else Option.none
+
 /-- the validator invocations the property allows for one item -/
 def itemJournal (c : Cfg) : Item → List JEntry
   | .kw k v | .pos k v => match findP c.ps k with | some p => specJournal p v | Option.none => []
@@ -87,7 +102,7 @@ def itemOut (c : Cfg) : Item → Except VExc (Option (Name × PV))
   | .pos k v =>
     match findP c.ps k with
     | some p => (specValidate p v).map (fun w => some (k, w))
-    | Option.none => if c.strict && k != selfName then .error .tooMany else .ok (some (k, v))
+    | Option.none => if c.strict && some k != specReceiver c.sig then .error .tooMany else .ok (some (k, v))
   | .absent p =>
     match p.ext with
     | some v => (specValidate p v).map (fun w => some (p.name, w))
@@ -128,7 +143,7 @@ def gate (c : Cfg) (args : List PV) (kw : List (Name × PV)) : GateOut :=
 /-- every value that may reach the body, whatever the call style (also for `*args` functions, where the surplus
     positionals are validated by the parameters not used so far): chain outputs of caller / external values, defaults and
     signature defaults of non-required parameters; what the caller supplied *under a name without declared Parameter*
-    (non-strict mode, `self`) unchanged; the function's own defaults -/
+    (non-strict mode, the receiver) unchanged; the function's own defaults -/
 def allowedValues (c : Cfg) (args : List PV) (kw : List (Name × PV)) : List PV :=
   let inputs := args ++ kw.map (·.2) ++ c.ps.filterMap (·.ext)
   (c.ps.flatMap fun p =>
@@ -145,6 +160,15 @@ def callerInput (sig : Sig) (args : List PV) (kw : List (Name × PV)) (name : Na
   match (sig.posNames.zip args).find? (·.1 == name) with
   | some kv => some kv.2
   | Option.none => (kw.find? (·.1 == name)).map (·.2)
+
+/-- the caller supplied the value for this name positionally -/
+def passedPositionally (sig : Sig) (args : List PV) (name : Name) : Bool :=
+  ((sig.posNames.zip args).find? (·.1 == name)).isSome
+
+/-- `strict` refuses a caller value for a name without declared Parameter — except the receiver a method is called on
+    (bound positionally by Python; the same object passed by keyword, `K.f(self=obj)`, is an argument like every other) -/
+def strictRefuses (c : Cfg) (args : List PV) (name : Name) : Bool :=
+  c.strict && !(some name == specReceiver c.sig && passedPositionally c.sig args name)
 
 /-- per-parameter result: `none` = nothing is handed over for this name -/
 def byNameOne (c : Cfg) (args : List PV) (kw : List (Name × PV)) (s : SParam) : Except VExc (Option PV) :=
@@ -166,7 +190,7 @@ def byNameOne (c : Cfg) (args : List PV) (kw : List (Name × PV)) (s : SParam) :
           | Option.none => .error .validate
   | Option.none =>
     match inp with
-    | some v => if c.strict && s.name != selfName then .error .tooMany else .ok (some v)
+    | some v => if strictRefuses c args s.name then .error .tooMany else .ok (some v)
     | Option.none => .ok Option.none
 
 /-- the value a named parameter is bound to -/
